@@ -6,7 +6,8 @@
 // cmp    n natural order, r reversed, m<k> keys compared modulo k  (results -1/0/+1);
 //
 //	a a-b, t 3*(a-b), h (a-b)<<32, A b-a, D 7*(b-a), M<k> (a mod k)-(b mod k), R<k> the same
-//	reversed, x MinInt/0/MaxInt, X the same reversed  (arbitrary and extreme magnitudes)
+//	reversed, x MinInt/0/MaxInt, X the same reversed  (arbitrary and extreme magnitudes);
+//	q<base> the comparator <base> that also reads its tree while cursor operations run (round 5)
 //
 // build  P            the keys of <shape> are added in preorder to a β=1000 tree (public API only;
 //
@@ -73,6 +74,40 @@ func cmpFor(s string) func(a, b int) int {
 		return 0
 	}
 	switch {
+	case strings.HasPrefix(s, "q") && len(s) > 1:
+		// q<base>: <base>, and while the cursor operations of a W line run (reentT set) the comparator
+		// first READS the tree it belongs to (round 5: read-only re-entrancy through the comparison callback)
+		base := cmpFor(s[1:])
+		depth, calls := 0, 0
+		return func(a, b int) int {
+			if t := reentT; t != nil && depth == 0 {
+				depth++
+				calls++
+				// (lookups of OTHER keys than the one being searched: the search paths differ)
+				switch calls % 6 {
+				case 0:
+					t.Get(t.Max())
+				case 1:
+					t.Cursor(t.Max()).Prev()
+				case 2:
+					n := 0
+					for range t.InorderAfter(t.Min()) {
+						if n++; n == 2 {
+							break
+						}
+					}
+				case 3:
+					t.Root().Min()
+				case 4:
+					t.Cursor(t.Min()).Next()
+				default:
+					t.Len()
+					t.Get(b)
+				}
+				depth--
+			}
+			return base(a, b)
+		}
 	case s == "n":
 		return nat
 	case s == "r":
@@ -103,6 +138,9 @@ func cmpFor(s string) func(a, b int) int {
 	}
 	panic("bad comparator " + s)
 }
+
+// reentT: the tree of the W line whose cursor operations are running (for the comparators q<base>)
+var reentT *stree.Tree[int]
 
 func split(s, sep string) []string {
 	if s == "" {
@@ -383,6 +421,8 @@ func execCase(in string) string {
 		}
 		items = append(items, "t:"+tr.Ints(inorderKeys(t)))
 		m := &machine{t: t}
+		reentT = t
+		defer func() { reentT = nil }()
 		for _, op := range split(f[4], ";") {
 			items = append(items, m.op(op))
 		}
@@ -777,7 +817,7 @@ func main() {
 		w.Close(o, "C03: replay", nil)
 		return
 	}
-	tr.Main("C03: every tree shape with up to 4 (quick) / 5 (thorough) nodes x every start (each key, absent keys, Root, nil, empty) x every sequence of up to 2 (3) of the seven moves, with a clone taken first and re-read after every move; trees built by Add/Replace/Remove/Clear/New histories (ascending and descending vines, zig-zags, churn with delete-side rebuilds, bulk New, random mixes) at β in {0,1,250,500,999,1000,random} under natural, reversed and modular comparators, and from each of them random walks (from random keys and, for trees up to 16 keys, from every key) over all moves, re-anchoring, clones in up to 4 registers, Inorder (full and stopped early) and full Next/Prev sweeps from every key. Round 3: histories that grow a tree by 16-90 Adds at beta < 1000 and then remove keys (shallowest first by real depth, keeping the deepest root-to-leaf paths, from one end, ...) down to 1/2, 1/4, 1/8, with Cursor/Get/Next/Prev/Up/Min/Max/Inorder from every remaining key; compound walks (several moves, HasNext/HasPrev/Valid/Key calls among them, with nothing else observed in between): every 3-move sequence from every start of every small shape, random ones from every key of the history-built trees and inside the random walks; and big trees (B lines): beta in {0,1,50,250,500,800,999} x growth order (ascending, descending, outside-in, random; thorough also inside-out and ideal breadth-first) x removal order (low end, high end, outside-in, inside-out, ideal breadth-first and its reverse, random, evenly spaced survivors, shallowest/deepest first by real depth, keeping the deepest paths) with sizes 2^k-1, 2^k, 2^k+1 for k = 8..12 (thorough ..13; 100-400 at beta 999 where the tree is a vine), shrunk in stages to 1/2, 1/4, 1/8, 1/16 (1/32, 1/64 at beta <= 100) of the peak and regrown, after every stage from EVERY key: Tree.Cursor valid at the key, Get, flags, real path, Next and Prev steps, a Next/Prev zig-zag, Up to the root, Min, Max, Inorder of the subtree, Cursor of the absent neighbour, and full Min..Next and Max..Prev sweeps, folded into digests (key lists beyond 200 keys too) so that a line stays a few kB, plus explicit walks with clones from the deepest key, from a key whose path slice is exactly full (2^k nodes) and from a random key. The B lines carry no shape: the replay rebuilds the tree with the C01 tree model. Round 4 (tree sessions, B lines over up to three trees): setter; barrier; consumer - setter = InorderAfter complete and broken off after every number of keys from every key and every absent neighbour, Tree.Inorder and Cursor.Inorder broken off at every position, the same with a loop body that panics (recovered), Get/Cursor/InorderAfter under a comparator that panics at its n-th call, Get, Min, Max, Len, Tree.Cursor, Root, cursors moved and left behind, a probe; barrier = nothing, an edit in place (Add of a neighbour, Remove of the key / its neighbours / an end, Replace by the same or an equivalent key, Add of a present key, Remove then Add back, Clear, Clear or key-by-key drain and the same keys again), or Clone and then the original or the clone edited, or a clone of a clone; consumer = on the other tree (and then on the edited one) Tree.Cursor of the key and its neighbours with full Next/Prev walks, Inorder, compound walks, Get, InorderAfter, Inorder, Min, Max, Len, Root and the probe of every key; cursors of one tree kept in their registers while the other tree is edited; every tree size 0..600 (grow, probe, shrink to exactly the size at which Remove does not yet rebuild, probe, one more Remove, Clear or drain, regrow). A case that does not return (a walk over a cycle among the nodes) is reported as hang by a watchdog and ends the run. The real shape and every cursor's real path are read from the node pointers by a hook. A case is non-trivial when the tree has at least two nodes and at least one cursor operation; distinct = distinct input lines.",
+	tr.Main("C03: every tree shape with up to 4 (quick) / 5 (thorough) nodes x every start (each key, absent keys, Root, nil, empty) x every sequence of up to 2 (3) of the seven moves, with a clone taken first and re-read after every move; trees built by Add/Replace/Remove/Clear/New histories (ascending and descending vines, zig-zags, churn with delete-side rebuilds, bulk New, random mixes) at β in {0,1,250,500,999,1000,random} under natural, reversed and modular comparators, and from each of them random walks (from random keys and, for trees up to 16 keys, from every key) over all moves, re-anchoring, clones in up to 4 registers, Inorder (full and stopped early) and full Next/Prev sweeps from every key. Round 3: histories that grow a tree by 16-90 Adds at beta < 1000 and then remove keys (shallowest first by real depth, keeping the deepest root-to-leaf paths, from one end, ...) down to 1/2, 1/4, 1/8, with Cursor/Get/Next/Prev/Up/Min/Max/Inorder from every remaining key; compound walks (several moves, HasNext/HasPrev/Valid/Key calls among them, with nothing else observed in between): every 3-move sequence from every start of every small shape, random ones from every key of the history-built trees and inside the random walks; and big trees (B lines): beta in {0,1,50,250,500,800,999} x growth order (ascending, descending, outside-in, random; thorough also inside-out and ideal breadth-first) x removal order (low end, high end, outside-in, inside-out, ideal breadth-first and its reverse, random, evenly spaced survivors, shallowest/deepest first by real depth, keeping the deepest paths) with sizes 2^k-1, 2^k, 2^k+1 for k = 8..12 (thorough ..13; 100-400 at beta 999 where the tree is a vine), shrunk in stages to 1/2, 1/4, 1/8, 1/16 (1/32, 1/64 at beta <= 100) of the peak and regrown, after every stage from EVERY key: Tree.Cursor valid at the key, Get, flags, real path, Next and Prev steps, a Next/Prev zig-zag, Up to the root, Min, Max, Inorder of the subtree, Cursor of the absent neighbour, and full Min..Next and Max..Prev sweeps, folded into digests (key lists beyond 200 keys too) so that a line stays a few kB, plus explicit walks with clones from the deepest key, from a key whose path slice is exactly full (2^k nodes) and from a random key. The B lines carry no shape: the replay rebuilds the tree with the C01 tree model. Round 4 (tree sessions, B lines over up to three trees): setter; barrier; consumer - setter = InorderAfter complete and broken off after every number of keys from every key and every absent neighbour, Tree.Inorder and Cursor.Inorder broken off at every position, the same with a loop body that panics (recovered), Get/Cursor/InorderAfter under a comparator that panics at its n-th call, Get, Min, Max, Len, Tree.Cursor, Root, cursors moved and left behind, a probe; barrier = nothing, an edit in place (Add of a neighbour, Remove of the key / its neighbours / an end, Replace by the same or an equivalent key, Add of a present key, Remove then Add back, Clear, Clear or key-by-key drain and the same keys again), or Clone and then the original or the clone edited, or a clone of a clone; consumer = on the other tree (and then on the edited one) Tree.Cursor of the key and its neighbours with full Next/Prev walks, Inorder, compound walks, Get, InorderAfter, Inorder, Min, Max, Len, Root and the probe of every key; cursors of one tree kept in their registers while the other tree is edited; every tree size 0..600 (grow, probe, shrink to exactly the size at which Remove does not yet rebuild, probe, one more Remove, Clear or drain, regrow). Round 5 (W ops y, t, z; comparators q<base>): Cursor.Inorder with a loop body that uses the VERY cursor being iterated (every move, HasNext/HasPrev/Valid/Key, a complete or stopped nested Inorder of the same cursor) or its clone, at every or every other key, the cursor brought to its key directly, from the root, or from the deepest key below it and up again (a path slice with spare room); two Inorder traversals of one cursor, or of a cursor and its clone, alive together through iter.Pull with the cursor moved between the pulls; Tree.Inorder whose body takes Tree.Cursor(key) at every key and moves it (what omap.Iter.Seek does) - for every key of every shape up to 4 (5) nodes with 21 loop bodies and on history-built trees; each traversal must deliver the keys of the subtree its cursor was at when it started, the moves from the body must leave the cursor where the same moves outside would; a comparator that reads its tree (Get, Cursor+Next, InorderAfter, Root+Min, Len, Max) while Tree.Cursor/Tree.Get run. A case that does not return (a walk over a cycle among the nodes) is reported as hang by a watchdog and ends the run. The real shape and every cursor's real path are read from the node pointers by a hook. A case is non-trivial when the tree has at least two nodes and at least one cursor operation; distinct = distinct input lines.",
 		exec, func(g *tr.G) {
 			theG, theRule = g, "C03: see the generator (ended early after a case that did not return)"
 			x := &gen{g: g}
